@@ -106,7 +106,7 @@ int g_user_calls;                  /* invocations of the user predicate */
                   (!(m).felem.second.has_t || (m).felem.second.tpos < (m).felem.second.size))) && (m).gen >= 0 && (m).gen < 1000)
 #define SOH_OK_L(s) ((s)->objectMap.size < 10000 && (!(s)->objectMap.has_f || (s)->objectMap.fpos < (s)->objectMap.size) && (s)->typeMap.size < 10000 && \
                      (!(s)->typeMap.has_f || (s)->typeMap.fpos < (s)->typeMap.size) && (s)->mapLock.guards == 0)
-#define SOH_OK(s) (OM_OK((s)->objectMap) && TM_OK((s)->typeMap) && (s)->mapLock.guards == 0 && vf_oobj.life == VF_LIVE && vf_oobj.refs >= 1 && vf_oobj.refs < 1000)
+#define SOH_OK(s) (OM_OK((s)->objectMap) && TM_OK((s)->typeMap) && (s)->mapLock.guards == 0 && vf_oobj.life == VF_LIVE && vf_oobj.refs >= 1 && vf_oobj.refs < VF_BIG)
 #define LOCKED(s) ((s)->mapLock.excl_me)
 
 /* every container operation must happen under mapLock (Scheme L for the two maps) */
@@ -452,3 +452,37 @@ FN = {
         loops={0: dict(invariant=[('C17', 'lock.owns && lock.m == &self->mapLock && LOCKED(self) && vf_held == 1 && !vf_exc && cntr >= 0 && cntr <= 7 && SOH_OK_L(self) && ' + CNT_OK, 'bounded retry loop')],
                        assigns='cntr, self->mapLock.excl_me, lock.owns, self->objectMap, self->typeMap, ' + SG, decreases='8 - cntr')}),
 }
+
+# ---- remaining operations: lock discipline, memory safety, and the focus-key functional facts
+FN[r'SearchableObjectHolder::getObjects'] = entry(
+    ensures=[('C17', '!vf_exc ==> (vf_ret->size == self->objectMap.size && (' + FOC + ' ==> (vf_ret->f.p == ' + OBJ + ' && vf_ret->fidx == self->objectMap.fpos)))',
+              'getObjects returns exactly the objects currently stored (size; the focus entry appears at its position)'),
+             ('C17', '(!vf_exc && ' + FOC + ' && ' + OBJ + ' != 0) ==> vf_fobj.refs == g_cs_refs + 1', 'as shared_ptr copies made under the lock'),
+             ('C17', FOC + ' == g_cs_has_f && self->objectMap.size == g_cs_size && !vf_exc', 'the map is not modified')],
+    assigns=['*vf_ret, *self, ' + SG],
+    loops={0: dict(invariant=[('C17', 'vf_begin0.m == &self->objectMap && vf_end0.m == &self->objectMap && vf_begin0.gen == self->objectMap.gen && vf_end0.idx == self->objectMap.size && vf_begin0.idx <= self->objectMap.size && '
+                                      '!self->objectMap.erased_any && SOH_OK_L(self) && LOCKED(self) && vf_held == 1 && !vf_exc && vf_ret->size == vf_begin0.idx && ' + FOC + ' == g_cs_has_f && self->objectMap.size == g_cs_size && ' +
+                                      OBJ + ' == g_cs_obj && (g_cs_obj == 0 || g_cs_obj == &vf_fobj) && self->objectMap.felem.first.id == vf_fk && vf_fobj.life == VF_LIVE && vf_oobj.life == VF_LIVE && vf_oobj.refs >= 1 && vf_oobj.refs < 100 + (int)vf_begin0.idx && vf_begin0.idx < 5001 && self->objectMap.size < 5000 && '
+                                      '((' + FOC + ' && self->objectMap.fpos < vf_begin0.idx) ? (vf_ret->f.p == g_cs_obj && vf_ret->fidx == self->objectMap.fpos && vf_fobj.refs == g_cs_refs + (g_cs_obj != 0 ? 1 : 0)) : (vf_ret->f.p == 0 && vf_fobj.refs == g_cs_refs)) && g_cs_refs >= 1 && g_cs_refs < 100',
+                               'scan: one copy per visited entry')],
+                   assigns='vf_begin0.idx, self->objectMap.other, vf_ret->size, vf_ret->f, vf_ret->fidx, vf_ret->other, vf_fobj.refs, vf_oobj.refs', decreases='self->objectMap.size - vf_begin0.idx')})
+FN[r'SearchableObjectHolder::addType'] = entry(
+    ensures=[('C17', 'name->id == vf_fk ==> (self->typeMap.has_f && (type == vf_ft ==> self->typeMap.felem.second.has_t) && '
+                     '(g_cs_thas_f ==> self->typeMap.felem.second.size >= 1))', 'the tag is appended to the tags of that name'),
+             ('C17', FOC + ' == g_cs_has_f && ' + OBJ + ' == g_cs_obj && !vf_exc', 'the object map is not touched')],
+    assigns=['*self, ' + SG])
+FN[r'SearchableObjectHolder::checkObjectType'] = entry(
+    ensures=[('C17', '(!vf_exc && name->id == vf_fk && type == vf_ft) ==> (__CPROVER_return_value == (self->typeMap.has_f && self->typeMap.felem.second.has_t))',
+              'true exactly when the name carries that tag (focus name, focus tag)'),
+             ('C17', '(name->id == vf_fk && !self->typeMap.has_f) ==> !__CPROVER_return_value', 'a name without tags has no type'),
+             ('C17', 'self->typeMap.has_f == g_cs_thas_f && !vf_exc', 'lookups do not modify the maps')],
+    assigns=['*self, ' + SG],
+    loops={0: dict(invariant=[('C17', 'vf_begin0.v == vf_range0 && vf_end0.v == vf_range0 && vf_end0.idx == vf_range0->size && vf_begin0.idx <= vf_range0->size && LOCKED(self) && vf_held == 1 && !vf_exc && SOH_OK_L(self) && '
+                                      'self->typeMap.has_f == g_cs_thas_f && (vf_range0 == &self->typeMap.felem.second || vf_range0 == &self->typeMap.other.second) && '
+                                      '(!vf_range0->has_t || vf_range0->tpos < vf_range0->size) && ((vf_range0->has_t && type == vf_ft) ==> vf_begin0.idx <= vf_range0->tpos)',
+                               'scan of the tag vector: the focus tag has not been passed without returning')],
+                   assigns='vf_begin0.idx, vf_range0->scratch', decreases='vf_range0->size - vf_begin0.idx')})
+FN[r'SearchableObjectHolder::ctor'] = dict(
+    props='C17', requires=['!vf_exc'],
+    ensures=[('C17', 'self->objectMap.size == 0 && !self->objectMap.has_f && self->typeMap.size == 0 && !self->typeMap.has_f && !self->mapLock.excl_me && !vf_exc', 'a new holder is empty and unlocked')],
+    assigns='*self')
